@@ -17,6 +17,13 @@ Theorem C02_pipeline_tokens : forall rs ps ts ws,
 Proof. exact pipeline_tokens. Qed.
 Print Assumptions C02_pipeline_tokens.
 
+(* an admissible layout reads back, with the Casbin-side reference lexer, as the token list it was
+   rendered from (so `admissible` implies DESIGN's hypothesis  cb_lex (render ts ws) = Some ts) *)
+Theorem C02_cb_lex_render : forall rs ps ts ws,
+  wf_tokens rs ps ts = true -> admissible ts ws = true -> cb_lex (render ts ws) = Some ts.
+Proof. exact cb_lex_render. Qed.
+Print Assumptions C02_cb_lex_render.
+
 (* the same for the token list of an AST of the expression language *)
 Theorem C02_pipeline_tokens_ast : forall rs ps e ws,
   forallb is_digit rs = true -> forallb is_digit ps = true ->
